@@ -94,9 +94,9 @@ Properties/C10.vos Properties/C10.vok Properties/C10.required_vos: Properties/C1
 Properties/C11.vo Properties/C11.glob Properties/C11.v.beautified Properties/C11.required_vo: Properties/C11.v Model/Types.vo Model/Book.vo Model/Obs.vo Model/Rng.vo Model/Env.vo Model/EnvObs.vo Proofs/EnvProps.vo
 Properties/C11.vio: Properties/C11.v Model/Types.vio Model/Book.vio Model/Obs.vio Model/Rng.vio Model/Env.vio Model/EnvObs.vio Proofs/EnvProps.vio
 Properties/C11.vos Properties/C11.vok Properties/C11.required_vos: Properties/C11.v Model/Types.vos Model/Book.vos Model/Obs.vos Model/Rng.vos Model/Env.vos Model/EnvObs.vos Proofs/EnvProps.vos
-Properties/C14.vo Properties/C14.glob Properties/C14.v.beautified Properties/C14.required_vo: Properties/C14.v Model/Types.vo Model/Book.vo Model/Obs.vo Model/Rng.vo Model/Env.vo Proofs/EnvProps.vo
-Properties/C14.vio: Properties/C14.v Model/Types.vio Model/Book.vio Model/Obs.vio Model/Rng.vio Model/Env.vio Proofs/EnvProps.vio
-Properties/C14.vos Properties/C14.vok Properties/C14.required_vos: Properties/C14.v Model/Types.vos Model/Book.vos Model/Obs.vos Model/Rng.vos Model/Env.vos Proofs/EnvProps.vos
+Properties/C14.vo Properties/C14.glob Properties/C14.v.beautified Properties/C14.required_vo: Properties/C14.v Model/Types.vo Model/Book.vo Model/Obs.vo Model/Rng.vo Model/Env.vo Spec/RefBook.vo Proofs/EnvProps.vo Proofs/Refine.vo Proofs/Volumes.vo Proofs/MarketInv.vo
+Properties/C14.vio: Properties/C14.v Model/Types.vio Model/Book.vio Model/Obs.vio Model/Rng.vio Model/Env.vio Spec/RefBook.vio Proofs/EnvProps.vio Proofs/Refine.vio Proofs/Volumes.vio Proofs/MarketInv.vio
+Properties/C14.vos Properties/C14.vok Properties/C14.required_vos: Properties/C14.v Model/Types.vos Model/Book.vos Model/Obs.vos Model/Rng.vos Model/Env.vos Spec/RefBook.vos Proofs/EnvProps.vos Proofs/Refine.vos Proofs/Volumes.vos Proofs/MarketInv.vos
 Properties/C15.vo Properties/C15.glob Properties/C15.v.beautified Properties/C15.required_vo: Properties/C15.v Model/Types.vo Model/Rng.vo Model/Env.vo Proofs/EnvProps.vo Proofs/Uniform.vo
 Properties/C15.vio: Properties/C15.v Model/Types.vio Model/Rng.vio Model/Env.vio Proofs/EnvProps.vio Proofs/Uniform.vio
 Properties/C15.vos Properties/C15.vok Properties/C15.required_vos: Properties/C15.v Model/Types.vos Model/Rng.vos Model/Env.vos Proofs/EnvProps.vos Proofs/Uniform.vos
@@ -169,6 +169,9 @@ Proofs/AgentDir.vos Proofs/AgentDir.vok Proofs/AgentDir.required_vos: Proofs/Age
 Proofs/AgentOrders.vo Proofs/AgentOrders.glob Proofs/AgentOrders.v.beautified Proofs/AgentOrders.required_vo: Proofs/AgentOrders.v Model/Types.vo Model/Side.vo Model/Book.vo Model/Rng.vo Model/Float.vo Model/Env.vo Model/Agents.vo Proofs/Basic.vo Proofs/EnvProps.vo Proofs/AgentProps.vo Proofs/AgentDir.vo
 Proofs/AgentOrders.vio: Proofs/AgentOrders.v Model/Types.vio Model/Side.vio Model/Book.vio Model/Rng.vio Model/Float.vio Model/Env.vio Model/Agents.vio Proofs/Basic.vio Proofs/EnvProps.vio Proofs/AgentProps.vio Proofs/AgentDir.vio
 Proofs/AgentOrders.vos Proofs/AgentOrders.vok Proofs/AgentOrders.required_vos: Proofs/AgentOrders.v Model/Types.vos Model/Side.vos Model/Book.vos Model/Rng.vos Model/Float.vos Model/Env.vos Model/Agents.vos Proofs/Basic.vos Proofs/EnvProps.vos Proofs/AgentProps.vos Proofs/AgentDir.vos
+Proofs/MarketInv.vo Proofs/MarketInv.glob Proofs/MarketInv.v.beautified Proofs/MarketInv.required_vo: Proofs/MarketInv.v Model/Types.vo Model/Map.vo Model/Side.vo Model/Book.vo Model/Obs.vo Model/Rng.vo Model/Env.vo Spec/RefBook.vo Proofs/Basic.vo Proofs/Refine.vo Proofs/Volumes.vo Proofs/Views.vo Proofs/Reload.vo Proofs/EnvProps.vo
+Proofs/MarketInv.vio: Proofs/MarketInv.v Model/Types.vio Model/Map.vio Model/Side.vio Model/Book.vio Model/Obs.vio Model/Rng.vio Model/Env.vio Spec/RefBook.vio Proofs/Basic.vio Proofs/Refine.vio Proofs/Volumes.vio Proofs/Views.vio Proofs/Reload.vio Proofs/EnvProps.vio
+Proofs/MarketInv.vos Proofs/MarketInv.vok Proofs/MarketInv.required_vos: Proofs/MarketInv.v Model/Types.vos Model/Map.vos Model/Side.vos Model/Book.vos Model/Obs.vos Model/Rng.vos Model/Env.vos Spec/RefBook.vos Proofs/Basic.vos Proofs/Refine.vos Proofs/Volumes.vos Proofs/Views.vos Proofs/Reload.vos Proofs/EnvProps.vos
 Properties/C01.vo Properties/C01.glob Properties/C01.v.beautified Properties/C01.required_vo: Properties/C01.v Model/Types.vo Model/Map.vo Model/Side.vo Model/Book.vo Model/Obs.vo Spec/RefBook.vo Proofs/Ledger.vo Proofs/Refine.vo Proofs/RefProps.vo Proofs/Volumes.vo Proofs/Reload.vo Proofs/Progress.vo
 Properties/C01.vio: Properties/C01.v Model/Types.vio Model/Map.vio Model/Side.vio Model/Book.vio Model/Obs.vio Spec/RefBook.vio Proofs/Ledger.vio Proofs/Refine.vio Proofs/RefProps.vio Proofs/Volumes.vio Proofs/Reload.vio Proofs/Progress.vio
 Properties/C01.vos Properties/C01.vok Properties/C01.required_vos: Properties/C01.v Model/Types.vos Model/Map.vos Model/Side.vos Model/Book.vos Model/Obs.vos Spec/RefBook.vos Proofs/Ledger.vos Proofs/Refine.vos Proofs/RefProps.vos Proofs/Volumes.vos Proofs/Reload.vos Proofs/Progress.vos
@@ -181,6 +184,6 @@ Properties/C05.vos Properties/C05.vok Properties/C05.required_vos: Properties/C0
 Properties/C06.vo Properties/C06.glob Properties/C06.v.beautified Properties/C06.required_vo: Properties/C06.v Model/Types.vo Model/Book.vo Model/Obs.vo Spec/RefBook.vo Proofs/Refine.vo Proofs/RefProps.vo
 Properties/C06.vio: Properties/C06.v Model/Types.vio Model/Book.vio Model/Obs.vio Spec/RefBook.vio Proofs/Refine.vio Proofs/RefProps.vio
 Properties/C06.vos Properties/C06.vok Properties/C06.required_vos: Properties/C06.v Model/Types.vos Model/Book.vos Model/Obs.vos Spec/RefBook.vos Proofs/Refine.vos Proofs/RefProps.vos
-Properties/C07.vo Properties/C07.glob Properties/C07.v.beautified Properties/C07.required_vo: Properties/C07.v Model/Types.vo Model/Map.vo Model/Side.vo Model/Book.vo Model/Obs.vo Spec/RefBook.vo Proofs/Refine.vo Proofs/Volumes.vo Proofs/Views.vo Proofs/Reload.vo
-Properties/C07.vio: Properties/C07.v Model/Types.vio Model/Map.vio Model/Side.vio Model/Book.vio Model/Obs.vio Spec/RefBook.vio Proofs/Refine.vio Proofs/Volumes.vio Proofs/Views.vio Proofs/Reload.vio
-Properties/C07.vos Properties/C07.vok Properties/C07.required_vos: Properties/C07.v Model/Types.vos Model/Map.vos Model/Side.vos Model/Book.vos Model/Obs.vos Spec/RefBook.vos Proofs/Refine.vos Proofs/Volumes.vos Proofs/Views.vos Proofs/Reload.vos
+Properties/C07.vo Properties/C07.glob Properties/C07.v.beautified Properties/C07.required_vo: Properties/C07.v Model/Types.vo Model/Map.vo Model/Side.vo Model/Book.vo Model/Obs.vo Spec/RefBook.vo Proofs/Refine.vo Proofs/Volumes.vo Proofs/Views.vo Proofs/Reload.vo Model/Rng.vo Model/Env.vo Proofs/MarketInv.vo
+Properties/C07.vio: Properties/C07.v Model/Types.vio Model/Map.vio Model/Side.vio Model/Book.vio Model/Obs.vio Spec/RefBook.vio Proofs/Refine.vio Proofs/Volumes.vio Proofs/Views.vio Proofs/Reload.vio Model/Rng.vio Model/Env.vio Proofs/MarketInv.vio
+Properties/C07.vos Properties/C07.vok Properties/C07.required_vos: Properties/C07.v Model/Types.vos Model/Map.vos Model/Side.vos Model/Book.vos Model/Obs.vos Spec/RefBook.vos Proofs/Refine.vos Proofs/Volumes.vos Proofs/Views.vos Proofs/Reload.vos Model/Rng.vos Model/Env.vos Proofs/MarketInv.vos
